@@ -67,7 +67,7 @@ def witness_full_false(ctx):
 def run(ctx):
     regressions(ctx)
     witness_full_false(ctx)
-    S.explore(ctx, 'C09', ctx.scale(260, 6000), ctx.scale(22, 30))
+    S.explore(ctx, 'C09', ctx.scale(260, 1800), ctx.scale(22, 30))
 
 
 def replay(ctx, data):
